@@ -189,6 +189,9 @@ def cell_sample(spec):
             vals = [min(float(np.float32(v)), 262143.0) for v in r]
             if spec.get('negatives') and t % 9 == 0:
                 vals[2] = -abs(vals[2]) * 0.01 - 1.0
+            if spec.get('scatter_neg_head') and (t in (3, 120) or t == len(rows) - 20):
+                # strongly negative scatter values among the events that the workflow discards first (the first 250 and the last 100)
+                vals[0], vals[1] = -4000.0 - t, -2500.0 - t
             if spec.get('overrange') and t % 37 == 11 and len(vals) > 3:
                 vals[3] = float('nan')              # an event without a value in the second fluorescence channel (floating-point files may hold NaN)
             if spec.get('overrange') and t % 11 == 5:
